@@ -8,12 +8,13 @@ advance once per saved chunk.  Not decided: bit-identity of round trips.
 """
 
 import ast
+import keyword
 
 from ..cfg import cfg_of, literals
 from ..dataflow import Defs, atoms, calls_in, provenance, stmt_of
 from ..index import AnalysisError, call_name, dotted, enclosing, head, norm, walk_body
 from ..pattern import find as pfind, has_fact, local_defined_as, pmatch
-from ..rules import COMPOUND, kw, node_calls, own_calls, prov_at
+from ..rules import COMPOUND, kw, node_calls, own_calls, prov_at, reaching
 from ..witness import W
 
 IO = "strax/io.py"
@@ -48,6 +49,7 @@ def run(chk):
     r3_metadata_from_chunk(chk, repo)
     r4_rechunker_typestate(chk, repo)
     r5_empty_and_rebuild(chk, repo)
+    r6_rechunker_conservation(chk, repo)
 
 
 # ------------------------------------------------------------------------------------ R1
@@ -325,7 +327,7 @@ def r5_empty_and_rebuild(chk, repo):
     for k, v in want.items():
         chk.check(kws.get(k) == v, "C03.R5", rd, stmt_of(cons[0]), f"loaded chunk's {k} is {kws.get(k)}, expected {v}", site_text=f"_read_and_format_chunk: Chunk({k}={v})", site={"function": rd.qualname, "field": k})
     SUB = kws.get("subruns")
-    sr = [n for n, b in pfind(rd.node, f"{SUB} = chunk_info.get('subruns', None)")] if SUB and SUB.isidentifier() else []
+    sr = [n for n, b in pfind(rd.node, f"{SUB} = chunk_info.get('subruns', None)")] if SUB and SUB.isidentifier() and not keyword.iskeyword(SUB) else []
     chk.check(bool(sr), "C03.R5", rd, None, "subruns are not restored from the chunk metadata", site_text="_read_and_format_chunk: subruns from chunk_info")
     ld = repo.func("StorageBackend.loader", COMMON)
     ck = [n for n in walk_body(ld.node) if isinstance(n, ast.Call) and call_name(n) == "dict" and any(k.arg == "data_kind" for k in n.keywords)]
@@ -334,13 +336,98 @@ def r5_empty_and_rebuild(chk, repo):
     DTN = kk.get("dtype")
     MDL, _x, _y = local_defined_as(ld.node, "self.get_metadata(backend_key)")
     chk.check(MDL is not None and kk.get("data_type") == f"{MDL}['data_type']" and kk.get("data_kind") == f"{MDL}['data_kind']" and DTN is not None, "C03.R5", ld, None, "data type / kind / dtype of loaded chunks do not come from the stored metadata", site_text="loader: data_type, data_kind, dtype from metadata")
-    dt = [n for n, b in pfind(ld.node, f"{DTN} = literal_eval({MDL}['dtype'])")] if DTN and DTN.isidentifier() and MDL else []
+    dt = [n for n, b in pfind(ld.node, f"{DTN} = literal_eval({MDL}['dtype'])")] if DTN and DTN.isidentifier() and not keyword.iskeyword(DTN) and MDL else []
     chk.check(bool(dt), "C03.R5", ld, None, "dtype is not parsed from the stored metadata", site_text="loader: dtype = literal_eval(metadata[dtype])")
     sb = repo.func("StorageBackend.saver", COMMON)
     chk.check(any(isinstance(n, ast.Assign) and norm(n.targets[0]) == "metadata['dtype']" and "descr" in norm(n.value) for n in walk_body(sb.node)), "C03.R5", sb, None, "dtype is not stored in the literal form the loader parses", site_text="StorageBackend.saver: metadata[dtype] = dtype.descr.__repr__()")
     # row count check on load (detects corruption): evidence
     nchk = [n for n in rcfg.stmt_nodes() if isinstance(n.stmt, ast.Raise) and ("len(data) != chunk_info['n']", True) in rcfg.guard_facts(n)]
     chk.note("row_count_check_on_load", bool(nchk))
+
+# ------------------------------------------------------------------------------------ R6
+
+
+def _flows_from(func, node, expr, sources, depth=8):
+    """May `expr` at CFG `node` carry one of `sources` (a parameter name, or the normalised text
+    of an attribute such as 'self.cache'), following the definitions that reach it?"""
+    r = reaching(func)
+    cfg = cfg_of(func)
+    seen = set()
+
+    def rec(e, at, d):
+        for x in ast.walk(e):
+            if isinstance(x, ast.Attribute) and norm(x) in sources:
+                return True
+            if isinstance(x, ast.Name):
+                for name, val, st, how in r.defs_of(at, x.id):
+                    if how == "param":
+                        if name in sources:
+                            return True
+                        continue
+                    key = (id(st), x.id)
+                    if key in seen or val is None or d <= 0:
+                        continue
+                    seen.add(key)
+                    v = val.value if how == "aug" else val
+                    src = cfg.nodes_of(st) if isinstance(st, ast.stmt) else []
+                    if rec(v, src[0] if src else at, d - 1):
+                        return True
+        return False
+
+    return rec(expr, node, depth)
+
+
+def r6_rechunker_conservation(chk, repo):
+    chk.describe("C03.R6", "the rechunker conserves what it receives: on every path of receive the incoming chunk flows into the returned list or into the cache, the cached remainder is merged in front of the next chunk, every left part split off is emitted, and split points come from gaps measured against the running maximum of the end times")
+    rr = repo.func("Rechunker.receive", CHUNK)
+    cfg = cfg_of(rr)
+    cparam = rr.node.args.args[1].arg
+    dom = cfg.dominators("n")
+    cache_sets = [n for n in cfg.stmt_nodes() if isinstance(n.stmt, ast.Assign) and any(norm(t) == "self.cache" for t in n.stmt.targets)]
+    rets = [n for n in cfg.stmt_nodes() if isinstance(n.stmt, ast.Return)]
+    chk.need(bool(rets), "C03.R6: Rechunker.receive has no return")
+    for n in rets:
+        direct = n.stmt.value is not None and _flows_from(rr, n, n.stmt.value, {cparam})
+        cached = any(c in dom.get(n, ()) and _flows_from(rr, c, c.stmt.value, {cparam}) for c in cache_sets)
+        chk.check(direct or cached, "C03.R6", rr, n.stmt, "a path of Rechunker.receive returns without the received chunk having gone into the returned list or the cache: its rows / time range are lost", site={"function": rr.qualname, "return": norm(n.stmt.value) if n.stmt.value is not None else "None", "guards": sorted(f"{t}={p}" for t, p in cfg.guard_facts(n))})
+    # the cached remainder is merged in front of the new chunk
+    cc = [c for c in calls_in(rr.node) if call_name(c).endswith("Chunk.concatenate") or call_name(c).endswith(".concatenate") and "Chunk" in call_name(c)]
+    ok = False
+    for c in cc:
+        if c.args and isinstance(c.args[0], (ast.List, ast.Tuple)) and len(c.args[0].elts) == 2:
+            a, b = c.args[0].elts
+            n_ = cfg.node_of(stmt_of(c))
+            if norm(a) == "self.cache" and _flows_from(rr, n_, b, {cparam}) and ("self.cache is not None", True) in cfg.guard_facts(n_):
+                st = stmt_of(c)
+                ok = isinstance(st, ast.Assign) and any(cs in cfg.reachable([n_], "n") and _flows_from(rr, cs, cs.stmt.value, {"self.cache"}) for cs in cache_sets) or any(_flows_from(rr, r_, r_.stmt.value, {"self.cache"}) for r_ in rets if r_.stmt.value is not None)
+    chk.check(ok, "C03.R6", rr, None, "rows held back in the cache are not merged in front of the next chunk (they are lost or reordered)", site_text="Rechunker.receive: concatenate([self.cache, chunk]) when a remainder is cached")
+    # every left part split off is emitted and the right part continues
+    splits = [st for st in walk_body(rr.node) if isinstance(st, ast.Assign) and isinstance(st.value, ast.Call) and isinstance(st.value.func, ast.Attribute) and st.value.func.attr == "split" and isinstance(st.targets[0], ast.Tuple) and len(st.targets[0].elts) == 2]
+    chk.check(len(splits) >= 1, "C03.R6", rr, None, "Rechunker.receive no longer splits the merged chunk", site_text="Rechunker.receive: left, rest = chunk.split(...)")
+    for st in splits:
+        left, rest = st.targets[0].elts
+        appended = [c for c in calls_in(rr.node) if isinstance(c.func, ast.Attribute) and c.func.attr == "append" and c.args and norm(c.args[0]) == norm(left) and isinstance(c.func.value, ast.Name)]
+        lists = {c.func.value.id for c in appended}
+        emitted = any(r_.stmt.value is not None and (set(atoms(r_.stmt.value)) & lists) for r_ in rets)
+        same_body = any(enclosing(stmt_of(c), (ast.For, ast.While)) is enclosing(st, (ast.For, ast.While)) and enclosing(stmt_of(c), (ast.If,)) is enclosing(st, (ast.If,)) for c in appended)
+        chk.check(emitted and same_body, "C03.R6", rr, st, "the left part of a split is not appended (once per split) to the list receive returns", site={"function": rr.qualname, "split": "left part emitted"})
+        chk.check(norm(rest) == norm(st.value.func.value), "C03.R6", rr, st, "the right part of a split is not what is split / cached next", site={"function": rr.qualname, "split": "right part continues"})
+    # gaps are measured against the running maximum of endtimes
+    gs = repo.func("Rechunker.get_splits", CHUNK)
+    dcalls = [c for c in calls_in(gs.node) if call_name(c) in ("strax.diff", "diff")]
+    chk.check(len(dcalls) >= 1 and all(isinstance(getattr(c, "_parent", None), ast.Compare) for c in dcalls), "C03.R6", gs, None, "split candidates are no longer the positions where strax.diff exceeds the minimum gap", site_text="Rechunker.get_splits: strax.diff(data) > min_gap")
+    df = repo.func("diff", "strax/processing/general.py")
+    ddefs = Defs(df.node)
+    subs = []
+    for n in walk_body(df.node):
+        for x in ast.walk(n) if not isinstance(n, COMPOUND) else ():
+            if isinstance(x, ast.BinOp) and isinstance(x.op, ast.Sub):
+                pl, pr = provenance(ddefs, x.left), provenance(ddefs, x.right)
+                if "str:time" in pl and "call:endtime" in pr:
+                    subs.append((x, pr))
+    chk.check(bool(subs), "C03.R6", df, None, "strax.diff no longer computes time minus end time", site_text="strax.diff: gap = time - end")
+    for x, pr in subs:
+        chk.check(bool({"call:max", "call:maximum", "call:accumulate"} & pr), "C03.R6", df, stmt_of(x), "strax.diff measures the gap to the previous row's end only, not to the running maximum of end times: with overlapping rows the rechunker would cut through a row", site={"function": df.qualname, "rule": "gap against running max endtime"})
 
 
 WITNESSES = [
@@ -371,6 +458,17 @@ WITNESSES = [
       "if False:\n            # No data, no need to load\n            data = np.empty(0, dtype=dtype)\n        else:\n            data = self._read_chunk("),
     W("loaded chunk gets the run id of the request", "C03.R5", COMMON,
       "run_id=chunk_info[\"run_id\"],\n            subruns=subruns,", "run_id=metadata[\"run_id\"],\n            subruns=subruns,"),
+    W("empty chunk dropped while a remainder is cached", "C03.R6", CHUNK,
+      "if self.cache is not None:\n            # We have an old chunk",
+      "if self.cache is not None:\n            if not len(chunk):\n                return []\n            # We have an old chunk"),
+    W("cache overwritten instead of merged", "C03.R6", CHUNK,
+      "chunk = strax.Chunk.concatenate([self.cache, chunk], allow_superrun=self.is_superrun)", "chunk = strax.Chunk.concatenate([chunk], allow_superrun=self.is_superrun)"),
+    W("left part of a split not emitted", "C03.R6", CHUNK,
+      "allow_early_split=False,\n            )\n            chunks.append(_chunk)", "allow_early_split=False,\n            )"),
+    W("remainder not cached", "C03.R6", CHUNK,
+      "chunks.append(_chunk)\n        self.cache = chunk\n        return chunks", "chunks.append(_chunk)\n        return chunks"),
+    W("diff against the previous end only", "C03.R6", "strax/processing/general.py",
+      "max_endtime = max(max_endtime, endtime)\n        results[i] = time - max_endtime", "max_endtime = endtime\n        results[i] = time - max_endtime"),
     W("subruns dropped on load", "C03.R5", COMMON,
       "run_id=chunk_info[\"run_id\"],\n            subruns=subruns,", "run_id=chunk_info[\"run_id\"],\n            subruns=None,"),
 ]
